@@ -11,7 +11,7 @@ CONSTANTS
   MaxResults = 1
   KindSet = {"ok", "ne"}
   BuCap = 1
-  FixF34 = FALSE
+  FixF34 = TRUE
   GenHist = FALSE
 SPECIFICATION Spec
 INVARIANTS TypeOK
